@@ -432,16 +432,21 @@ func main() {
 	fmt.Fprintf(os.Stderr, "sequential part: %.1fs\n", time.Since(t0).Seconds())
 
 	// (1)-(4) concurrent histories in lanes
-	n := run.Pick(3000, 300000)
+	n := run.Pick(3000, 100000)
 	if *flagN > 0 {
 		n = *flagN
 	}
+	// a lane sleeps most of the time (injected yields): more lanes than cores/2 only pays off for
+	// the long tier
 	lanes := runtime.NumCPU() / 2
+	if !run.Quick() {
+		lanes = runtime.NumCPU()
+	}
 	if lanes < 2 {
 		lanes = 2
 	}
-	if lanes > 8 {
-		lanes = 8
+	if lanes > 16 {
+		lanes = 16
 	}
 	tmp, err := os.MkdirTemp("", "c16lanes")
 	if err != nil {
@@ -545,10 +550,12 @@ func replay(racePrefix string) {
 			run.Fatal("unknown witness format")
 		}
 		c := newCollector(0)
-		// (a) the recorded history, offline
+		// (a) the recorded history, offline: shows that the witness violates the oracle; it says
+		// nothing about the current code, so it is printed and not counted
 		if w.Stuck == "" {
-			k := judge(c, w.History, true)
-			fmt.Printf("replay: recorded history re-checked offline: %q\n", k)
+			k := judge(newCollector(-1), w.History, false)
+			fmt.Printf("replay: recorded history re-checked offline: oracle says %q (stored key %q)\n", k, wantKey)
+			run.Extra("stored_history_verdict", k)
 		}
 		// (b) the workload with the same parameters, a bounded number of times
 		verifhooks.SetYieldHook(yieldHook)
